@@ -17,7 +17,7 @@ theorem get_sensor_reading_refines (num lun : Nat) (s : BmcState) (h : num < 256
       (s, .ok (let r := get_sensor_reading lun num s; .optNatPair r.1 r.2)) := by
   have e1 : num % 256 = num := by omega
   generalize hx : get_sensor lun num s = x at hw
-  obtain ⟨w1, _⟩ := hw
+  obtain ⟨w1, w2, _⟩ := hw
   cases x with
   | mk reading eventMsgEnabled scanningEnabled unavailable states1 states2 readable thresholds rearmCount =>
   have b1 := b2n_le eventMsgEnabled
@@ -28,7 +28,36 @@ theorem get_sensor_reading_refines (num lun : Nat) (s : BmcState) (h : num < 256
   rcases states1 with _ | a <;> rcases states2 with _ | b <;>
     simp [api_get_sensor_reading, getSensorReading, statesOf, api_eval, fmtSensorReading, get_sensor_reading, hx, e1, e2] <;>
     cases unavailable <;> simp [b2n]
-  all_goals exact or_mul256 _ _ (w1 a rfl)
+  all_goals
+    have hb : b < 128 := w2 b rfl
+    rw [Nat.mod_eq_of_lt hb]
+    exact or_mul256 _ _ (w1 a rfl)
+
+/-- AS SHIPPED (`rsp.states2 << 8` unmasked): a discrete sensor whose response carries both state bytes always
+shows "state 15" - the reserved bit 7 of byte 5, which a conforming BMC returns as 1 -/
+theorem get_sensor_reading_rawbit_run (num lun : Nat) (s : BmcState) (h : num < 256)
+    (hw : (get_sensor lun num s).Wf) (a b : Nat) (hu : (get_sensor lun num s).unavailable = false)
+    (h1 : (get_sensor lun num s).states1 = some a) (h2 : (get_sensor lun num s).states2 = some b) :
+    (getSensorReading false num lun true).run s =
+      (s, .ok (.optNatPair (some (get_sensor lun num s).reading) (some (a + 256 * b + 0x8000)))) := by
+  have e1 : num % 256 = num := by omega
+  generalize hx : get_sensor lun num s = x at hw hu h1 h2
+  obtain ⟨w1, w2, _⟩ := hw
+  cases x with
+  | mk reading eventMsgEnabled scanningEnabled unavailable states1 states2 readable thresholds rearmCount =>
+  simp at hu h1 h2
+  subst hu h1 h2
+  have b1 := b2n_le eventMsgEnabled
+  have b2 := b2n_le scanningEnabled
+  have hb : b < 128 := w2 b rfl
+  have e2 : (128 * b2n eventMsgEnabled + 64 * b2n scanningEnabled) / 32 % 2 = 0 := by
+    have : (128 * b2n eventMsgEnabled + 64 * b2n scanningEnabled) / 32 = 4 * b2n eventMsgEnabled + 2 * b2n scanningEnabled := by
+      omega
+    omega
+  have e3 : (128 + b) % 256 = 128 + b := by omega
+  have e4 : b2n false = 0 := rfl
+  simp [getSensorReading, statesOf, api_eval, fmtSensorReading, hx, e1, e2, e3, e4]
+  rw [or_mul256 _ _ (w1 a rfl)]; omega
 
 theorem filterMap_congr' {α β} {f g : α → Option β} {l : List α} (h : ∀ x ∈ l, f x = g x) :
     l.filterMap f = l.filterMap g := by
@@ -44,7 +73,7 @@ theorem get_sensor_thresholds_refines (num lun : Nat) (s : BmcState) (h : num < 
     (api_get_sensor_thresholds num lun).run s = (s, .ok (.thresholds (get_sensor_thresholds lun num s))) := by
   have e1 : num % 256 = num := by omega
   generalize hx : get_sensor lun num s = x at hw
-  obtain ⟨_, w2⟩ := hw
+  obtain ⟨_, _, w2⟩ := hw
   cases x with
   | mk reading eventMsgEnabled scanningEnabled unavailable states1 states2 readable thresholds rearmCount =>
   simp at w2
